@@ -508,6 +508,14 @@ func (c *normCtx) tryExtract(value ast.Value, expected Input) (ast.Value, bool) 
 	if expected == nil {
 		return value, false
 	}
+	// Only a literal that is valid for the expected type may become a
+	// variable: variable coercion is more lenient than literal validation
+	// (1.5 is not an Int literal, but an Int variable takes it), and for a
+	// list or input-object type valueFromAST below answers non-nil even when
+	// an item is invalid.
+	if ok, _ := isValidLiteralValue(expected, value); !ok {
+		return value, false
+	}
 	// Coerce literal once at extract time. We pass nil variableValues
 	// because we already know the value tree contains no variables.
 	coerced := valueFromAST(value, expected, nil)
